@@ -18,7 +18,7 @@ for pid in ids:
         evidence_file=f"/verif/evidence/{pid}.json",
         replay_cmd_template=f"./check {pid} --replay {{path}}",
         engine="pvc",
-        level_claimed=dict(category=P["level"], text=P["level_text"], design_ref=P.get("design_ref", "DESIGN.md section 6")),
+        level_claimed=dict(category=P["level"], text=P["level_text"], design_ref=P.get("design_ref", "DESIGN.md sections 6 and 13")),
         level_note=P["level_note"],
         technique=P.get("technique", "contract-based deductive verification: VCs generated from the real source (ast) "
                                      "against sidecar contracts, discharged by z3/cvc5"),
